@@ -134,10 +134,10 @@ static void count_state(int h)
 }
 
 enum { OpClone, OpClear, OpAppend, OpAppendZero, OpInsert, OpSet, OpSlice, OpCut, OpTrunc, OpReserve, OpReduce,
-       OpPrintf, OpString, OpNewFlagged, OpSliceOpen, OpSliceWrite, OpSliceWriteZero, OpSlicePrep, OpSliceDrop, OpCount };
+       OpPrintf, OpString, OpNewFlagged, OpSliceOpen, OpSliceWrite, OpSliceWriteZero, OpSlicePrep, OpSliceDrop, OpDetach, OpCount };
 static const char *opn[OpCount] = { "array_clone", "array_clear", "array_append", "array_append0", "array_insert", "array_set",
        "array_slice", "buffer_cut", "buffer_truncate", "array_reserve", "array_reduce", "printf", "array_string", "new_flagged",
-       "slice_open", "slice_write", "slice_write0", "slice_prepare", "slice_drop" };
+       "slice_open", "slice_write", "slice_write0", "slice_prepare", "slice_drop", "buffer_detach" };
 
 static void do_op(vf_rng *r, int op, char *desc, size_t dcap, size_t *dl)
 {
@@ -403,6 +403,22 @@ static void do_op(vf_rng *r, int op, char *desc, size_t dcap, size_t *dl)
 	case OpSliceDrop:
 		drop_slice();
 		break;
+	case OpDetach: {
+		/* the buffer's own detach entry (what reduce/reserve/set use): private buffer of at least
+		 * len bytes holding the content, truncated when len is smaller */
+		if (!arr[h]._buf) break;
+		if (vf_chance(r, 1, 2)) len = vf_below(r, (uint32_t) u + 2);
+		snprintf(ctx, sizeof(ctx), "buffer_detach(h=%d,len=%zu) used=%zu size=%zu flags=%x", h, len, u, h_size(h), h_flags(h));
+		vf_log("%s", ctx);
+		vf_at("buffer::detach");
+		MPT_STRUCT(buffer) *b = arr[h]._buf->_vptr->detach(arr[h]._buf, len);
+		if (!b) break;   /* refused: handle keeps its buffer, checked below */
+		arr[h]._buf = b;
+		VF_CHECK(b->_size >= len, key(opn[op], "capacity"), "%s: capacity %zu", ctx, b->_size);
+		size_t nu = b->_used;
+		VF_CHECK(nu <= sh[h].n && nu >= (len < sh[h].n ? len : sh[h].n), key(opn[op], "length"), "%s: %zu bytes after detach", ctx, nu);
+		sh[h].n = nu;   /* prefix; content compared below */
+		break; }
 	}
 	vf_xfree(in, len);
 	check_all(opn[op], target, ctx);
